@@ -39,7 +39,7 @@ NoDup(c) == Cardinality(ToSet(c.nondust)) = Len(c.nondust) /\ Cardinality(ToSet(
 TraceInit ==
   /\ l = 1 /\ nodeOf = <<>> /\ saved = <<>> /\ everRAA = <<>> /\ projB = <<>>
   /\ fw = [adds |-> {}, downFul |-> {}, upClaimed |-> {}, settledNow |-> {}, base0 |-> <<>>, pol |-> <<>>,
-           shut |-> {}, closeFee |-> <<>>, newInfl |-> {}, crashed |-> {}, liveAtCrash |-> {}, snapKnows |-> <<>>, needSent |-> {}, owed |-> {}, settled |-> FALSE, pays |-> {}, claimedEv |-> {}, sentEv |-> {}, failEv |-> {}, lastMgr |-> <<>>, cuid |-> <<>>, failedNow |-> {}, ruid |-> <<>>, claimable |-> <<>>, mustClaim |-> {}]
+           shut |-> {}, closeFee |-> <<>>, newInfl |-> {}, crashed |-> {}, liveAtCrash |-> {}, snapKnows |-> <<>>, needSent |-> {}, owed |-> {}, settled |-> FALSE, pays |-> {}, claimedEv |-> {}, sentEv |-> {}, failEv |-> {}, lastMgr |-> <<>>, cuid |-> <<>>, failedNow |-> {}, ruid |-> <<>>, claimable |-> <<>>, mustClaim |-> {}, mustAcc |-> {}, gs |-> <<>>, reloaded |-> {}, dirty |-> {}]
   /\ par = <<>> /\ cnt = <<>> /\ hs = <<>> /\ fees = <<>> /\ feeBase = <<>> /\ base = <<>>
   /\ link = <<>> /\ redo = <<>> /\ lastCS = <<>> /\ order = <<>> /\ pts = <<>> /\ mon = <<>>
   /\ ownExp = <<>>
@@ -72,7 +72,7 @@ TOpen ==
         /\ saved' = <<>> /\ projB' = <<>>
         /\ fw' = [adds |-> {}, downFul |-> {}, upClaimed |-> {}, settledNow |-> {},
                    base0 |-> [e \in E |-> IF e[2] = 1 THEN cs[ch(e[1])].bal_a_msat ELSE cs[ch(e[1])].bal_b_msat],
-                   pol |-> R.policy, shut |-> {}, closeFee |-> [c \in C |-> 0], newInfl |-> {}, crashed |-> {}, liveAtCrash |-> {}, snapKnows |-> <<>>, needSent |-> {}, owed |-> {}, settled |-> FALSE, pays |-> {}, claimedEv |-> {}, sentEv |-> {}, failEv |-> {}, lastMgr |-> <<>>, cuid |-> <<>>, failedNow |-> {}, ruid |-> <<>>, claimable |-> <<>>, mustClaim |-> {}]
+                   pol |-> R.policy, shut |-> {}, closeFee |-> [c \in C |-> 0], newInfl |-> {}, crashed |-> {}, liveAtCrash |-> {}, snapKnows |-> <<>>, needSent |-> {}, owed |-> {}, settled |-> FALSE, pays |-> {}, claimedEv |-> {}, sentEv |-> {}, failEv |-> {}, lastMgr |-> <<>>, cuid |-> <<>>, failedNow |-> {}, ruid |-> <<>>, claimable |-> <<>>, mustClaim |-> {}, mustAcc |-> {}, gs |-> <<>>, reloaded |-> {}, dirty |-> {}]
 
 \* not part of the commitment protocol; `warning` / `disconnect_peer` ask the transport to drop the
 \* peer (the harness then disconnects, as PeerManager would) -- an `error` is never acceptable
@@ -124,6 +124,8 @@ TMsg ==
   /\ (R.chan # 0 /\ R.kind \in {"update_fail_htlc", "update_fail_malformed_htlc"} /\ ~Closed(EP(R.chan, R.from)))
         => /\ G2(MayFailUp(R.from, EP(R.chan, R.from), R.id))
            /\ Has(EP(R.chan, R.from), "in", R.id) => G12(<<R.from, Get(EP(R.chan, R.from), "in", R.id).hash>> \notin fw.mustClaim)
+           \* C01: an HTLC inside the reported limits, sent while nothing was in motion, is not refused by the peer
+           /\ Has(EP(R.chan, R.from), "in", R.id) => G1(<<R.chan, Get(EP(R.chan, R.from), "in", R.id).hash>> \notin fw.mustAcc)
            \* C09: the failure of a forwarded HTLC is passed upstream only after the update of the downstream
            \* revocation that made its removal irrevocable is durable
            /\ Has(EP(R.chan, R.from), "in", R.id) /\ Get(EP(R.chan, R.from), "in", R.id).rem = -1 =>
@@ -234,17 +236,31 @@ TComplete == /\ IsEvent("complete") /\ UNCHANGED Aux
              /\ IF Closed(EP(R.chan, R.node)) THEN UNCHANGED cvars ELSE Complete(EP(R.chan, R.node), R.id)
 
 \* ---- the user asks to send: the reported limits are exact (C01)
+\* Nothing is in motion on channel c: every update is irrevocable on both sides, nothing awaits a signature, a
+\* revocation, a retransmission or a monitor write.  An HTLC sent inside the reported limits in such a state is
+\* "accepted by the sender and by the peer": a direct peer that is the recipient must not fail it back on its own
+\* (it may when updates cross -- the limits were computed without them -- when its user says so, or when time passes).
+QuietEP(e) == /\ link[e] = "up" /\ ~redo[e].cs /\ ~redo[e].raa /\ redo[e].upd = {}
+              /\ fees[e] = <<>> /\ mon[e].infl = {}
+              /\ cnt[e].sentCS = cnt[e].recvRAA /\ cnt[e].recvCS = cnt[e].sentRAA
+              /\ \A h \in hs[e] : h.add = 4 /\ h.rem = -1
+Quiet(c) == QuietEP(<<c, 1>>) /\ QuietEP(<<c, 2>>)
 TSend ==
   /\ IsEvent("send")
   /\ UNCHANGED <<cvars, nodeOf, saved, everRAA, projB>>
-  /\ fw' = IF R.result = "ok" THEN [fw EXCEPT !.pays = @ \cup {[hash |-> R.hash, payer |-> R.node, amt |-> R.amt, snap |-> R.snap]}] ELSE fw
+  /\ fw' = IF R.result = "ok"
+            THEN [fw EXCEPT !.pays = @ \cup {[hash |-> R.hash, payer |-> R.node, amt |-> R.amt, snap |-> R.snap]},
+                            !.mustAcc = IF R.direct /\ R.usable /\ R.chan \in DOMAIN nodeOf /\ R.chan \notin fw.shut /\ Quiet(R.chan)
+                                        THEN @ \cup {<<R.chan, R.hash>>} ELSE @]
+            ELSE fw
   /\ G1(R.usable => /\ (R.first_amt >= R.min /\ R.first_amt <= R.limit) => R.result = "ok"
                     /\ (R.first_amt > R.limit \/ R.first_amt < R.min) => R.result = "err")
 
 ChanBetween(a, b) == CHOOSE c \in DOMAIN nodeOf : {nodeOf[c][1], nodeOf[c][2]} = {a, b}
 Both(a, b) == {<<ChanBetween(a, b), 1>>, <<ChanBetween(a, b), 2>>}
+NoAcc == /\ UNCHANGED <<nodeOf, saved, everRAA, projB>> /\ fw' = [fw EXCEPT !.mustAcc = {}]
 TDisconnect ==
-  /\ IsEvent("disconnect") /\ UNCHANGED Aux
+  /\ IsEvent("disconnect") /\ NoAcc
   /\ Disconnect({e \in Both(R.a, R.b) : ~Closed(e)})
 TReconnect ==
   /\ IsEvent("reconnect") /\ UNCHANGED Aux
@@ -269,7 +285,11 @@ HolderKnown(e) == LET n == cnt[e].recvCS IN n \in DOMAIN mon[e].holder /\ mon[e]
 TCrash ==
   /\ IsEvent("crash")
   /\ UNCHANGED <<nodeOf, saved, everRAA, projB>>
-  /\ fw' = [fw EXCEPT !.crashed = @ \cup {R.node},
+  /\ fw' = [fw EXCEPT !.crashed = @ \cup {R.node}, !.mustAcc = {},
+                       \* (gossip status: the staged counters are volatile, the peers are disconnected after a restart)
+                       !.gs = [k \in DOMAIN @ |-> IF k[1] = R.node THEN [@[k] EXCEPT !.live = FALSE, !.streak = 0] ELSE @[k]],
+                       !.reloaded = IF R.reload THEN @ \cup {R.node} ELSE @,
+                       !.dirty = IF R.reload THEN @ ELSE @ \cup {R.node},
                        \* (a payment the restored manager has never heard of is no longer this node's to report -- also
                        \*  not after a later restart from a manager written in between)
                        !.pays = {q \in @ : ~(q.payer = R.node /\ q.snap > R.mgr)},
@@ -335,7 +355,7 @@ CoopClose == R.kind = "ChannelClosed" /\ R.reason = "CooperativeClosure"
 \* events the library documents as re-delivered until handled (the user's handler may answer ReplayEvent)
 PersistentEvents == {"PaymentSent", "PaymentFailed", "PaymentClaimable"}
 \* the user closes a channel unilaterally
-TForceClose == /\ IsEvent("force_close") /\ UNCHANGED Aux
+TForceClose == /\ IsEvent("force_close") /\ NoAcc
                /\ link' = [link EXCEPT ![EP(R.chan, R.node)] = "closed"]
                /\ Unch(<<par, cnt, hs, fees, feeBase, base, redo, lastCS, order, pts, mon, ownExp>>)
 \* every broadcast transaction has been mined and every timelock of the run has expired
@@ -402,14 +422,50 @@ TClaimOp ==
   /\ l <= Len(Rec) /\ Rec[l].ev \in {"claim", "fail"} /\ l' = l + 1
   /\ UNCHANGED <<cvars, nodeOf, saved, everRAA, projB>>
   /\ LET r == Rec[l]  k == <<r.node, r.hash>> IN
-     fw' = IF k \notin DOMAIN fw.claimable THEN fw
+     LET acc == {p \in fw.mustAcc : p[2] # r.hash} IN
+     fw' = IF k \notin DOMAIN fw.claimable THEN [fw EXCEPT !.mustAcc = acc]
            ELSE IF r.ev = "claim" /\ fw.claimable[k].reloaded /\ r.height < fw.claimable[k].deadline
-                THEN [fw EXCEPT !.mustClaim = @ \cup {k}]
-                ELSE [fw EXCEPT !.claimable = [x \in DOMAIN @ \ {k} |-> @[x]]]
+                THEN [fw EXCEPT !.mustClaim = @ \cup {k}, !.mustAcc = acc]
+                ELSE [fw EXCEPT !.claimable = [x \in DOMAIN @ \ {k} |-> @[x]], !.mustAcc = acc]
+
+\* ---- what a node tells the network about its channels (C12, design model GossipStatus.tla): a channel that has not
+\* been live for DisableAfter consecutive timer ticks has been announced as disabled, one that has been live for
+\* EnableAfter ticks as enabled.  Only the announced bit is persisted (the staged counters start again after a
+\* reload); a node that was written and re-read keeps to this like the original.  Judged for nodes that were
+\* re-read from their latest state (a stale manager may legitimately hold an older bit), on channels no side is
+\* shutting down.  The bounds are generous (the code: DISABLE_GOSSIP_TICKS + 1 = 11, ENABLE_GOSSIP_TICKS + 1 = 6).
+DisableAfter == 14
+EnableAfter == 9
+GsOf(k) == IF k \in DOMAIN fw.gs THEN fw.gs[k] ELSE [ann |-> TRUE, live |-> TRUE, streak |-> 0]
+TTick ==
+  /\ IsEvent("tick") /\ UNCHANGED <<cvars, nodeOf, saved, everRAA, projB>>
+  /\ LET n == R.node
+         C == {e[1] : e \in {x \in EPsOf(n) : ~Closed(x)}}
+         lv(c) == link[EP(c, n)] = "up"
+         \* (a broadcast waits in the node until some peer is connected: with nobody to tell, the count starts again)
+         heard == \E e \in EPsOf(n) : link[e] = "up"
+         upd(c) == [ann |-> GsOf(<<n, c>>).ann, live |-> lv(c),
+                    streak |-> IF ~heard THEN 0 ELSE IF GsOf(<<n, c>>).live = lv(c) THEN GsOf(<<n, c>>).streak + 1 ELSE 1]
+     IN /\ fw' = [fw EXCEPT !.mustAcc = {},
+                            !.gs = [k \in DOMAIN @ \cup {<<n, c>> : c \in C} |-> IF k[1] = n /\ k[2] \in C THEN upd(k[2]) ELSE @[k]]]
+        /\ (n \in fw.reloaded /\ n \notin fw.dirty) =>
+              \A c \in C : LET g == GsOf(<<n, c>>) IN
+                 (c \notin fw.shut /\ g.live = lv(c)) =>
+                    /\ G12((~g.live /\ g.streak >= DisableAfter) => ~g.ann)
+                    /\ G12((g.live /\ g.streak >= EnableAfter) => g.ann)
+TBcastUpdate ==
+  /\ IsEvent("bcast_update") /\ UNCHANGED <<cvars, nodeOf, saved, everRAA, projB>>
+  /\ fw' = [fw EXCEPT !.gs = [k \in DOMAIN @ \cup {<<R.node, R.chan>>} |->
+                                 IF k = <<R.node, R.chan>> THEN [GsOf(k) EXCEPT !.ann = R.enabled] ELSE @[k]]]
 
 TOther ==
-  /\ l <= Len(Rec) /\ Rec[l].ev \in {"forward", "intercept_fwd", "intercept_fail", "signer", "fee", "tick", "block", "persist_mode", "restarted", "close", "open_extra", "pause_flush", "flush", "hold_events", "settle_chain", "mine_skipped", "sweeper_track_failed"}
-  /\ l' = l + 1 /\ Stutter
+  /\ l <= Len(Rec) /\ Rec[l].ev \in {"forward", "intercept_fwd", "intercept_fail", "signer", "fee", "block", "persist_mode", "restarted", "close", "open_extra", "pause_flush", "flush", "hold_events", "settle_chain", "mine_skipped", "sweeper_track_failed"}
+  /\ l' = l + 1 /\ UNCHANGED <<cvars, nodeOf, saved, everRAA, projB>>
+  \* (time passing, fee changes, a slow signer, ... : whatever was promised about a quiet channel is off)
+  \* (the `fee` operation makes the node's timer tick once more without a `tick` record: the tick counts start again)
+  /\ fw' = IF Rec[l].ev \in {"forward", "persist_mode", "restarted", "pause_flush", "flush", "sweeper_track_failed"} THEN fw
+            ELSE IF Rec[l].ev = "fee" THEN [fw EXCEPT !.mustAcc = {}, !.gs = [k \in DOMAIN @ |-> [@[k] EXCEPT !.streak = 0]]]
+            ELSE [fw EXCEPT !.mustAcc = {}]
 
 \* ---- a channel opened while the run is in progress (C09: nothing that depends on the initial
 \* monitor write is released before that write is durable)
@@ -468,7 +524,7 @@ TFin ==
                                     {a \in fw.adds : a.node = n /\ a.dir = "in"})
                IN gotIn >= paidOut)
 
-TraceNext == TClaimOp \/ TSweeper \/ TForceClose \/ TSettled \/ TEventRefused \/ TFin \/ TScorer \/ TExtra \/ TOpen \/ TMsg \/ TDeliver \/ TPersist \/ TComplete \/ TSend \/ TDisconnect \/ TReconnect
+TraceNext == TTick \/ TBcastUpdate \/ TClaimOp \/ TSweeper \/ TForceClose \/ TSettled \/ TEventRefused \/ TFin \/ TScorer \/ TExtra \/ TOpen \/ TMsg \/ TDeliver \/ TPersist \/ TComplete \/ TSend \/ TDisconnect \/ TReconnect
              \/ TEvent \/ TOther \/ TMgrSnap \/ TCrash \/ TBroadcast \/ TProj
 
 TraceSpec == TraceInit /\ [][TraceNext]_tvars
